@@ -3,7 +3,7 @@ import itertools
 import numpy as np
 from vf import core
 from vf.ref import defs, names
-from vf.gen import c08_alias
+from vf.gen import c08_alias, c08_degenerate
 from .common import chunks
 
 RULE = ("exhaustive over ordered pairs of temperature units (6 base spellings + delta units + SI-prefixed K/degC/delta_degC: quick m,k; "
@@ -15,8 +15,17 @@ RULE = ("exhaustive over ordered pairs of temperature units (6 base spellings + 
         "per object that holds the result (the returned object and, separately, the out= buffer), judged by the same affine reference "
         "on the readings the operands held before the call; a mandated refusal must also leave the target's numbers untouched; "
         "conversions among all of them against the exact affine map; "
-        "multiplicative/power/reduction set on every offset-scale unit must raise; diff/ediff1d/ptp/gradient per unit. "
-        "distinct = (operation form, [judged object,] unit1, unit2) tuples")
+        "multiplicative/power/reduction set on every offset-scale unit must raise; diff/ediff1d/ptp/gradient per unit; "
+        "degenerate shapes of the must-raise set on every offset-scale unit: one evaluation per call of a multiplicative reduction "
+        "(np.multiply.reduce, np.divide.reduce, np.prod, ndarray.prod, np.nanprod; cumulative forms) x shapes holding 0, 1, 2, 3 (thorough: to 5) "
+        "readings along the reduced axes x axis form (omitted, int, negative, 1-tuple, multi-axis tuple, None) x keepdims x out= kind (none, labelled, "
+        "bare ndarray, foreign label) x start value (absent, 1.0, 2.0) x dtype, of a power by an exponent that is or is computed to 0 or 1 "
+        "(46 exponent spellings: Python/NumPy scalars, Fraction, 0-d and n-d arrays, lists, dimensionless and percent quantities, 0/1-mixed arrays, "
+        "near-0 and near-1 values) x 12 call forms x 4 shapes, and of a product of one-reading / 1x1 / 0x0 operands (dot, inner, outer, matmul, kron, "
+        "tensordot, einsum, ufunc.outer, inv, pinv, matrix_power, var, convolve, det): judged 'must raise' whenever two or more factors take part "
+        "or the exponent is not 1, and only if the same call on the same numbers labelled K returns (control); after the refusal the out= / in-place "
+        "target must hold its old numbers. "
+        "distinct = (operation form, [judged object,] unit1, unit2) tuples; degenerate: (op, axis form, readings class, keepdims, out kind, unit) / (power form, exponent spelling, unit)")
 ASSUMPTIONS = ("vf/ref/defs.py affine parameters (degC: K = v + 273.15; degF: K = 5/9 (v + 459.67); prefixed degC keep the zero point)",
                "point+point, difference-point and comparisons are not in the statement: recorded, not judged",
                "aliasing forms: the out= buffer is judged with the unit it carries after the call; a bare ndarray handed as out= carries no label "
@@ -29,7 +38,18 @@ ASSUMPTIONS = ("vf/ref/defs.py affine parameters (degC: K = v + 273.15; degF: K 
                "statement does not mandate a changed target is a note",
                "aliasing forms: an operand that is not the target and changes during the call is C18's subject: note, not judged",
                "an integer out= buffer is turned into the float of its width by unyt before the ufunc runs (library idiom); a call that cannot do so "
-               "(non-owning integer view) refuses, which the statement allows")
+               "(non-owning integer view) refuses, which the statement allows",
+               "degenerate shapes: a refusal is judged only when the same call on the same numbers labelled K (no zero point) returns; otherwise the "
+               "refusal is vacuous (np.cumprod family, ufunc.accumulate, np.prod(out=unyt buffer) refuse every unit) and is a note",
+               "degenerate shapes: a reduction over exactly one reading without a start value, x**1 in any spelling of 1, det of a 1x1 matrix and "
+               "matrix_power(A, 1) hand the reading back and are not products/powers: recorded (refused / handed-back / returned-changed), not judged",
+               "degenerate shapes: a reduction over an empty axis that delivers a number (the empty product 1.0, unit exponent 0) and x**0 are judged "
+               "'must raise' (a product/power of offset-scale data returning a number); calls whose result has no element at all are recorded only",
+               "degenerate shapes: initial= is one more factor (judged 'must raise' even over one reading), except initial=1.0 for products, which is the "
+               "value NumPy starts from anyway (recorded); for np.divide.reduce every start value is a dividend",
+               "degenerate shapes: an exponent one unit in the last place away from 1 (in the exponent's own float type; e.g. (0.1+0.2)/0.3) is float "
+               "noise of a computed 1: recorded; exponents 1e-12 or further from 1 (1+1e-12, 1+1e-9, 1-1e-7, 1+1e-5) and tiny non-zero exponents are genuine powers: judged",
+               "degenerate shapes: det(0x0), dot/outer/var of empty operands (no reading takes part) are recorded; matrix_power(A, 0) is a power by 0: judged")
 MIN_EVALS = 4000
 TIMEOUT = 900
 READINGS = [0.0, 10.0, -40.0, 36.6, 451.0, -273.15, 0.5]
@@ -68,7 +88,13 @@ def batches(tier, seed):
     # aliasing call forms: a chunk is a list of ordered pairs; more, smaller chunks in the thorough tier (each pair is ~40 forms x dtypes)
     nal = 16 if tier == "quick" else 96
     b += [("alias/%d" % i, ("alias", (c, seed, 1 if tier == "quick" else 2, c08_alias.DTPAIRS[tier]))) for i, c in enumerate(chunks(pairs, nal))]
-    b += [("mustraise", ("mustraise", [u for u in us if kind(u) == "point"])), ("reductions", ("reductions", us))]
+    points = [u for u in us if kind(u) == "point"]
+    b += [("mustraise", ("mustraise", points)), ("reductions", ("reductions", us))]
+    # degenerate shapes of the must-refuse matrix: one batch per offset-scale unit and plan family (the control unit K runs in each)
+    for u in points:
+        b += [("degenerate/%s/%s" % (part, u), ("degenerate", (part, [u], tier))) for part in ("reduce", "cumulative")]
+    b += [("degenerate/power/%d" % i, ("degenerate", ("power", c, tier))) for i, c in enumerate(chunks(points, 4))]
+    b.append(("degenerate/products", ("degenerate", ("products", points, tier))))
     return b
 
 
@@ -431,6 +457,160 @@ def worker(batch, rec):
                 else:
                     rec.ok(("reduction", name, u))
         rec.sample({"reductions": ["diff", "ediff1d", "ptp", "gradient", "slice-subtract"], "units": payload[:4]})
+    elif kind_ == "degenerate":
+        import warnings
+        part, us, tier = payload
+        with warnings.catch_warnings(), np.errstate(all="ignore"):
+            warnings.simplefilter("ignore")
+            if part in ("reduce", "cumulative"):
+                _deg_reductions(rec, unyt, part, us, tier)
+            elif part == "power":
+                _deg_powers(rec, unyt, us, tier)
+            else:
+                _deg_products(rec, unyt, us, tier)
+
+
+CONTROL = "K"     # a scale without zero point: the same call on the same numbers must return, otherwise the refusal says nothing
+
+
+def _attempt(fn):
+    try:
+        return fn(), None
+    except Exception as e:
+        return None, type(e).__name__
+
+
+def _deg_out(unyt, kind_, ref, u):
+    if kind_ == "none":
+        return None
+    buf = np.full(ref.shape, 7, dtype=ref.dtype)
+    if kind_ == "ndarray":
+        return buf
+    return unyt.unyt_array(buf, u if kind_ == "unyt" else "m")
+
+
+def _deg_reductions(rec, unyt, part, us, tier):
+    g = c08_degenerate
+    plans = g.reduce_plans(tier) if part == "reduce" else g.cumulative_plans(tier)
+    for plan in plans:
+        op = plan["op"]
+        X = g.raw(plan["shape"], plan["dt"])
+        ref, err = _attempt(lambda: np.asarray(g.run(op, X.copy(), g.kwargs_of(plan, None))))
+        if err is not None:
+            rec.count("degenerate-skipped:numpy-itself-refuses"); continue
+        _, err = _attempt(lambda: g.run(op, unyt.unyt_array(X.copy(), CONTROL), g.kwargs_of(plan, _deg_out(unyt, plan["out"], ref, CONTROL))))
+        if err is not None:
+            rec.note(f"degenerate-vacuous:{op}:control-raises-{err}"); rec.count("degenerate-vacuous"); continue
+        init = plan.get("initial", "absent")
+        if part == "reduce":
+            n = g.nred_for(plan)
+            # a start value is one more factor, except the identity of a product (what NumPy starts from anyway)
+            extra_factor = init != "absent" and not (init == 1.0 and "divide" not in op)
+            single = n == 1 and not extra_factor
+            ncls = ("n0" if n == 0 else "n1" if n == 1 else "n2" if n == 2 else "n3+") + ("+initial" if extra_factor else "")
+            expo = (2 - n) if "divide" in op else n          # exponent of the unit in the product (start value: a bare number)
+        else:
+            n = g.nacc_for(plan)
+            if n is None:
+                rec.count("degenerate-skipped:numpy-itself-refuses"); continue
+            single = n == 1; extra_factor = False; expo = None
+            ncls = "n0" if n == 0 else "n1" if n == 1 else "n2" if n == 2 else "n3+"
+        for u in us:
+            x = unyt.unyt_array(X.copy(), u)
+            out = _deg_out(unyt, plan["out"], ref, u)
+            before = None if out is None else _vals(out)
+            r, raised = _attempt(lambda: g.run(op, x, g.kwargs_of(plan, out)))
+            case = {"unit": u, "op": op, "shape": list(plan["shape"]), "axis": repr(plan["axis"]), "keepdims": plan.get("keepdims", False), "out": plan["out"],
+                    "initial": init, "dtype": plan["dt"], "readings_combined": n}
+            if ref.size == 0 and n != 0:
+                rec.note(f"degenerate-empty-result:{op}:{'refused' if raised else 'returned'}"); rec.count("degenerate:empty-result-recorded"); continue
+            if single:
+                # one reading, nothing multiplied or divided: not a product, recorded
+                if raised:
+                    rec.note(f"degenerate-single-reading:{op}:refused")
+                else:
+                    same = hasattr(r, "units") and str(r.units.expr) == str(x.units.expr) and _same(_vals(r).reshape(ref.shape), X.astype("f8").reshape(ref.shape))
+                    rec.note(f"degenerate-single-reading:{op}:{'handed-back' if same else 'returned-changed'}")
+                rec.count("degenerate:single-reading-recorded"); continue
+            descr = f"{op}({plan['dt']} {u} data of shape {plan['shape']}, axis={plan['axis']!r}" + (", keepdims=True" if plan.get("keepdims") else "") \
+                + (f", out=<{plan['out']}>" if out is not None else "") + (f", initial={init}" if init != "absent" else "") + f"): {n} readings combined per result element"
+            if raised is None:
+                rec.violation(f"C08:must-raise-degenerate:{op}:{ncls}:{fam(u)}", f"{descr}; returned {r!r} instead of raising", case)
+            else:
+                rec.ok(("degenerate", part, op, plan["aform"], ncls, plan.get("keepdims", False), plan["out"], u))
+                if out is not None:
+                    if _same(before, _vals(out)):
+                        rec.count("degenerate:out-target-intact")
+                    else:
+                        rec.violation(f"C08:degenerate:written-before-refusal:{op}:{fam(u)}", f"{descr}; raised {raised} but the out= target holds {_vals(out).tolist()} instead of {before.tolist()}", case)
+            rec.count(f"degenerate-{part}:{ncls.replace('+initial', '')}"); rec.count(f"degenerate-axis:{plan['aform']}"); rec.count(f"degenerate-out:{plan['out']}")
+            rec.count(f"degenerate-op:{op}")
+            if plan.get("keepdims"):
+                rec.count("degenerate:keepdims")
+            if extra_factor:
+                rec.count("degenerate:initial")
+            if expo == 0:
+                rec.count("degenerate:unit-exponent-0")
+            elif expo == 1:
+                rec.count("degenerate:unit-exponent-1-with-start-value")
+    rec.sample({"degenerate": part, "units": us, "ops": list(c08_degenerate.REDUCE_OPS if part == "reduce" else c08_degenerate.CUMULATIVE_OPS), "shapes": [list(s_) for s_ in c08_degenerate.shapes(tier)][:12]})
+
+
+def _deg_powers(rec, unyt, us, tier):
+    g = c08_degenerate
+    for shape in g.POWER_SHAPES:
+        X = g.raw(shape, "f8")
+        for ename, cls, mkp in g.exponents(unyt):
+            for form in g.POWER_FORMS:
+                def build(u):
+                    p = mkp(shape)
+                    return g.power_call(unyt, form, X, p, u, shape)
+                (_, err) = _attempt(lambda: build(CONTROL)[2]())
+                if err is not None:
+                    rec.note(f"degenerate-vacuous:power:{form}:control-raises-{err}"); rec.count("degenerate-vacuous"); continue
+                for u in us:
+                    tgt, base, call = build(u)
+                    before = None if tgt is None else _vals(tgt)
+                    r, raised = _attempt(call)
+                    if cls in ("one", "ulp"):
+                        # the first power is the quantity itself; an exponent one unit in the last place away from 1 is float noise of a computed 1
+                        rec.note(f"degenerate-power:{cls}:{'refused' if raised else 'returned'}"); rec.count("degenerate:power-one-recorded"); continue
+                    if base.size == 0:
+                        rec.note(f"degenerate-empty-result:power:{'refused' if raised else 'returned'}"); rec.count("degenerate:empty-result-recorded"); continue
+                    fc = g.FORM_CLASS[form]
+                    case = {"unit": u, "form": form, "exponent": ename, "class": cls, "shape": list(shape)}
+                    if raised is None:
+                        rec.violation(f"C08:must-raise-degenerate:power:{cls}:{fc}:{fam(u)}", f"{form} with p = {ename} on {u} data of shape {shape} returned {r!r} instead of raising", case)
+                    else:
+                        rec.ok(("degenerate-power", form, ename, u))
+                        if tgt is not None:
+                            if _same(before, _vals(tgt)):
+                                rec.count("degenerate:power-target-intact")
+                            else:
+                                rec.violation(f"C08:degenerate:written-before-refusal:power:{fc}:{fam(u)}", f"{form} with p = {ename} on {u} raised {raised} but the target holds {_vals(tgt).tolist()} instead of {before.tolist()}", case)
+                    rec.count(f"degenerate-power:{cls}"); rec.count(f"degenerate-power-form:{form}")
+    rec.sample({"degenerate": "power", "units": us, "forms": list(g.POWER_FORMS), "exponents": [e[0] for e in g.exponents(unyt)]})
+
+
+def _deg_products(rec, unyt, us, tier):
+    g = c08_degenerate
+    for dt in ("f8", "i8"):
+        ctl = {}
+        for i, (name, cls, call) in enumerate(g.product_ops(unyt, CONTROL, dt)):
+            ctl[i] = _attempt(call)[1]
+        for u in us:
+            for i, (name, cls, call) in enumerate(g.product_ops(unyt, u, dt)):
+                if ctl[i] is not None:
+                    rec.note(f"degenerate-vacuous:{name}:control-raises-{ctl[i]}"); rec.count("degenerate-vacuous"); continue
+                r, raised = _attempt(call)
+                if cls in ("single", "empty"):
+                    rec.note(f"degenerate-products:{cls}:{name}:{'refused' if raised else 'returned'}"); rec.count("degenerate:products-recorded"); continue
+                if raised is None:
+                    rec.violation(f"C08:must-raise-degenerate:{name}:{fam(u)}", f"{name} on {dt} {u} operands returned {r!r} instead of raising", {"unit": u, "op": name, "dtype": dt})
+                else:
+                    rec.ok(("degenerate-products", name, dt, u))
+                rec.count(f"degenerate-products:{cls}")
+    rec.sample({"degenerate": "products", "units": us, "ops": [o[0] for o in g.product_ops(unyt, CONTROL, "f8")]})
 
 
 def _ip(a, which):
@@ -450,10 +630,18 @@ def extra(tier, seed, results):
             counters[k] = counters.get(k, 0) + v
     deciding = ["alias:returned-judged", "alias:out-buffer-judged", "alias:refusal-target-intact"] + [f"alias-form:{f}" for f in c08_alias.FORMS] \
         + [f"alias-dtypes:{a},{b}" for a, b in c08_alias.DTPAIRS[tier]]
+    degen = ["degenerate-reduce:n0", "degenerate-reduce:n1", "degenerate-reduce:n2", "degenerate-reduce:n3+", "degenerate:unit-exponent-0", "degenerate:unit-exponent-1-with-start-value",
+             "degenerate:initial", "degenerate:keepdims", "degenerate:out-target-intact", "degenerate:single-reading-recorded"] \
+        + [f"degenerate-axis:{a}" for a in ("omitted", "None", "int", "negint", "tuple1", "tupleN")] + [f"degenerate-out:{o}" for o in ("none", "unyt", "ndarray", "unyt-foreign")] \
+        + [f"degenerate-op:{o}" for o in ("np.multiply.reduce", "np.divide.reduce", "method.prod")] \
+        + [f"degenerate-power:{c}" for c in ("zero", "near-zero", "near-one", "mixed")] + [f"degenerate-power-form:{f}" for f in c08_degenerate.POWER_FORMS if "float_power" not in f] \
+        + ["degenerate:power-target-intact", "degenerate:power-one-recorded", "degenerate-products:product", "degenerate-products:power0"]
+    deciding += degen
     zero = [k for k in deciding if not counters.get(k)]
     broken = [bid for bid, rr in results if not rr or rr.get("status") != "ok"]
     if zero and not broken:
         raise core.Inconclusive("sub-monitors-evaluated-0-times:" + ",".join(zero))
-    return {"alias_monitor_evaluations": {k: counters.get(k, 0) for k in deciding},
+    return {"alias_monitor_evaluations": {k: counters.get(k, 0) for k in deciding if k not in degen},
+            "degenerate_monitor_evaluations": {k: v for k, v in sorted(counters.items()) if k.startswith("degenerate")},
             "alias_discarded_float32_range": counters.get("alias-discarded-float32-range", 0),
             "convert_discarded_underflow": counters.get("convert-discarded-underflow", 0)}
